@@ -26,7 +26,15 @@ if (cd "$wt/$pkg" && go test -count=1 -run "^${tname}\$" . >"$TMPO" 2>&1); then 
 echo "demo fails with the change: $(grep -m1 -E '^\s+.*_test.go:[0-9]+:|panic:|FAIL' "$TMPO" | head -1 | cut -c1-200)"
 rm "$wt/$pkg/zz_seed_demo_test.go"
 # existing suite with the change
-if ! (cd "$wt" && go test -vet=off -count=1 -timeout 20m ./... >"$TMPS" 2>&1); then echo "REJECT: existing suite fails with the change"; grep -E "^(--- FAIL|FAIL)" "$TMPS" | head; exit 1; fi
+if ! (cd "$wt" && go test -vet=off -count=1 -timeout 20m ./... >"$TMPS" 2>&1); then
+  # timing-sensitive tests (core/eventloop TestTicker) fail now and then on a loaded machine: re-run the failing packages alone, twice
+  pkgs="$(grep -E "^FAIL[[:space:]]+github.com" "$TMPS" | awk '{print $2}' | sort -u)"
+  [ -n "$pkgs" ] || { echo "REJECT: existing suite fails with the change"; grep -E "^(--- FAIL|FAIL)" "$TMPS" | head; exit 1; }
+  if ! (cd "$wt" && go test -vet=off -count=1 -p 1 $pkgs >"$TMPS" 2>&1) && ! (cd "$wt" && sleep 5 && go test -vet=off -count=1 -p 1 $pkgs >"$TMPS" 2>&1); then
+    echo "REJECT: existing suite fails with the change (also when the failing packages are re-run alone)"; grep -E "^(--- FAIL|FAIL)" "$TMPS" | head; exit 1
+  fi
+  echo "note: $pkgs failed in the full run and passed when re-run alone (timing-sensitive test on a loaded machine)"
+fi
 echo "existing suite passes with the change"
 mkdir -p "$HERE/seeded/$NAME"
 cp "$diff" "$HERE/seeded/$NAME/patch.diff"
